@@ -98,6 +98,19 @@ func (e *sched) step(st *sState, in ssa.Instruction) {
 				}
 			}
 		}
+		// whole-array assignment of the zero value: buf = [N]T{}
+		if p, ok := addr.(sPtr); ok && p.idx == -1 {
+			if c, isC := x.Val.(*ssa.Const); isC && c.Value == nil {
+				if at, isArr := c.Type().Underlying().(*types.Array); isArr {
+					if dst, ok := st.heap[p.id].(*hArray); ok && int64(len(dst.elems)) == at.Len() {
+						for i := range dst.elems {
+							dst.elems[i] = e.zeroOf(at.Elem())
+						}
+						return
+					}
+				}
+			}
+		}
 		// whole-array assignment: *dst = *src
 		if p, ok := addr.(sPtr); ok && p.idx == -1 {
 			if q, ok := v.(sPtr); ok && q.idx == -1 {
